@@ -821,8 +821,8 @@ async fn session(out: &mut Out, rng: &mut Rng, script: Option<(usize, Vec<Step>)
         }
     } else {
         // populate: strings and lists
-        for _ in 0..rng.range(0, 4) {
-            let c = if rng.chance(1, 2) { Cmd::Set(key(rng), val(rng)) } else { Cmd::Rpush(key(rng), vec![b("a")]) };
+        for _ in 0..rng.range(1, 7) {
+            let c = if rng.chance(3, 5) { Cmd::Set(key(rng), val(rng)) } else { Cmd::Rpush(key(rng), vec![b("a")]) };
             w.foreign(out, c).await;
         }
         let steps = rng.range(6, 24);
@@ -846,7 +846,11 @@ async fn session(out: &mut Out, rng: &mut Rng, script: Option<(usize, Vec<Step>)
                     _ => w.foreign(out, gen_cmd(rng, true)).await,
                 }
             } else {
-                match rng.below(100) {
+                let mut choice = rng.below(100);
+                if w.body.is_empty() && (63..=82).contains(&choice) && rng.chance(3, 4) {
+                    choice = 0; // mostly non-empty transactions
+                }
+                match choice {
                     0..=47 => w.input(out, Inp::Cmd(gen_cmd(rng, false))).await,
                     48..=62 => w.foreign(out, gen_cmd(rng, true)).await,
                     63..=70 => w.input(out, Inp::Exec(vec![])).await,
